@@ -132,6 +132,17 @@ def check_int_float_refusal(ctx, rule, m, kname):
                   "after the arrays were allocated", fi.where)
 
 
+def _typed_with_own_dtype(v) -> bool:
+    """`<expr>.astype(self.dtype)` / `np.asarray(<expr>, dtype=self.dtype)`: the stored array has the reported dtype."""
+    own = ("self.dtype", "self._dtype")
+    if isinstance(v, ast.Call) and isinstance(v.func, ast.Attribute):
+        if v.func.attr == "astype" and v.args and U(v.args[0]) in own:
+            return True
+        if v.func.attr in ("asarray", "array") and any(k.arg == "dtype" and U(k.value) in own for k in v.keywords):
+            return True
+    return False
+
+
 def check_fill_coercion(ctx, rule, m):
     """fill / fill_n (1D, ND): the weight's / weights' dtype is coerced before the first store of contents or missed values."""
     H1, HN = m.cls("Histogram1D"), m.cls("HistogramND")
@@ -149,6 +160,28 @@ def check_fill_coercion(ctx, rule, m):
     _site(ctx, rule, fn, "weights", lambda p, e: _cond(p, "weights is not None") and not _cond(p, "weights is not None", False)
           and not any(s[0] == "cond" and "weights.shape" in U(s[1]) and not s[2] for s in p),
           lambda a, env: U(a).endswith(".dtype") and "weights" in U(a), floor=1)
+    # the increments themselves (kernel results, weights) reach the arrays only through in-place `+=`, which cannot change
+    # the element type; a plain re-binding `self.frequencies = self.frequencies + inc` would follow numpy promotion with
+    # whatever dtype the increment has while _dtype stays
+    for cls in (H1, HN):
+        for name in ("fill", "fill_n"):
+            fi = cls.methods[name]
+            ctx.saw(fi)
+            plain, aug = [], 0
+            for st in ast.walk(fi.node):
+                if not isinstance(st, ast.stmt):
+                    continue
+                for w in writes_of(st):
+                    if w.root == "self" and w.attr in ("_frequencies", "_errors2", "frequencies", "errors2"):
+                        if w.how in ("aug", "aug-subscript"):
+                            aug += 1
+                        elif not _typed_with_own_dtype(getattr(st, "value", None)):
+                            plain.append(U(st)[:70])
+            ctx.check(aug >= 2 and not plain, rule, f"{cls.name}.{name}:type-stable-stores",
+                      f"{aug} in-place accumulations, no re-binding of the content arrays",
+                      f"content arrays are re-bound instead of accumulated in place ({plain[:2]}): the result takes the promoted element "
+                      "type of the increment while the reported dtype stays" if plain else f"only {aug} in-place accumulations found",
+                      fi.where)
 
 
 
@@ -233,6 +266,46 @@ def check_missed_alloc(ctx, rule, m):
         ctx.check(ok and given, rule, f"{cname}.__init__:missed-dtype", f"_missed = np.array({want}, dtype=self.dtype) - the values given, unmodified",
                   "the missed store is not created from the given values (unmodified) with the histogram's dtype "
                   "(e.g. NaN 'unknown' markers are rewritten)", init.where)
+
+
+def check_arrays_follow_dtype(ctx, rule, m):
+    """Every non-raising path of set_dtype that stores _dtype converts all three content stores with that dtype."""
+    HB = m.cls("HistogramBase")
+    sd = HB.methods["set_dtype"]
+    ctx.saw(sd)
+    ok_paths = 0
+    bad = []
+    for path in function_paths(sd.node):
+        if end_kind(path) == "raise":
+            continue
+        st_dtype = None
+        conv = {}
+        for step in path:
+            if step[0] == "stmt" and isinstance(step[1], ast.Assign):
+                for w in writes_of(step[1]):
+                    if w.root == "self" and w.attr == "_dtype":
+                        st_dtype = U(step[1].value)
+                    if w.root == "self" and w.attr in ("_frequencies", "_errors2", "_missed"):
+                        v = step[1].value
+                        if isinstance(v, ast.Call) and isinstance(v.func, ast.Attribute) and v.func.attr == "astype" \
+                                and U(v.func.value) == f"self.{w.attr}" and v.args:
+                            conv[w.attr] = U(v.args[0])
+                        else:
+                            conv[w.attr] = "?" + U(v)
+        if st_dtype is None:
+            if conv:
+                bad.append(f"path converts {sorted(conv)} without updating _dtype")
+            continue
+        ok_paths += 1
+        for a in ("_frequencies", "_errors2", "_missed"):
+            skipped = any(s[0] == "cond" and U(s[1]) == f"self.{a} is not None" and not s[2] for s in path)
+            if skipped:
+                continue
+            if conv.get(a) != st_dtype:
+                bad.append(f"_dtype = {st_dtype} but {a} converted with {conv.get(a)}")
+    ctx.check(ok_paths >= 1 and not bad, rule, "HistogramBase.set_dtype:arrays-follow-dtype",
+              "every path that stores _dtype converts _frequencies, _errors2 and _missed with astype(<same dtype>)",
+              "; ".join(sorted(set(bad))) or "no path stores _dtype", sd.where)
 
 
 def check_operator_coercion(ctx, rule, m, names=("__iadd__", "__isub__", "__imul__", "__itruediv__")):
@@ -328,41 +401,7 @@ def run(ctx):
         ctx.check((cn, fn_) in allowed, "C13.b", f"who-may-write:_dtype:{cn}.{fn_}", "allowed writer",
                   f"{cn}.{fn_} stores _dtype although only __init__, set_dtype and copy may (the reported dtype must "
                   "change together with the arrays)", fi.where)
-    sd = HB.methods["set_dtype"]
-    ctx.saw(sd)
-    ok_paths = 0
-    bad = []
-    for path in function_paths(sd.node):
-        if end_kind(path) == "raise":
-            continue
-        st_dtype = None
-        conv = {}
-        for step in path:
-            if step[0] == "stmt" and isinstance(step[1], ast.Assign):
-                for w in writes_of(step[1]):
-                    if w.root == "self" and w.attr == "_dtype":
-                        st_dtype = U(step[1].value)
-                    if w.root == "self" and w.attr in ("_frequencies", "_errors2", "_missed"):
-                        v = step[1].value
-                        if isinstance(v, ast.Call) and isinstance(v.func, ast.Attribute) and v.func.attr == "astype" \
-                                and U(v.func.value) == f"self.{w.attr}" and v.args:
-                            conv[w.attr] = U(v.args[0])
-                        else:
-                            conv[w.attr] = "?" + U(v)
-        if st_dtype is None:
-            if conv:
-                bad.append(f"path converts {sorted(conv)} without updating _dtype")
-            continue
-        ok_paths += 1
-        for a in ("_frequencies", "_errors2", "_missed"):
-            skipped = any(s[0] == "cond" and U(s[1]) == f"self.{a} is not None" and not s[2] for s in path)
-            if skipped:
-                continue
-            if conv.get(a) != st_dtype:
-                bad.append(f"_dtype = {st_dtype} but {a} converted with {conv.get(a)}")
-    ctx.check(ok_paths >= 1 and not bad, "C13.b", "HistogramBase.set_dtype:arrays-follow-dtype",
-              "every path that stores _dtype converts _frequencies, _errors2 and _missed with astype(<same dtype>)",
-              "; ".join(sorted(set(bad))) or "no path stores _dtype", sd.where)
+    check_arrays_follow_dtype(ctx, "C13.b", m)
     rd = HB.methods["_reshape_data"]
     ctx.saw(rd)
     allocs = [c for c in calls_in(rd.node) if call_is(c, "zeros", "empty", "zeros_like")]
